@@ -92,8 +92,31 @@ impl IntoData for i64 {
 
 impl IntoData for i128 {
     fn as_data(&self) -> PlutusData {
-        let int = Int::try_from(*self).unwrap();
-        PlutusData::BigInt(BigInt::Int(int))
+        match Int::try_from(*self) {
+            Ok(int) => PlutusData::BigInt(BigInt::Int(int)),
+            // outside the CBOR integer range: big_uint / big_nint
+            Err(_) => {
+                let (magnitude, negative) = if *self >= 0 {
+                    (*self as u128, false)
+                } else {
+                    ((-1 - *self) as u128, true)
+                };
+
+                let bytes: Vec<u8> = magnitude
+                    .to_be_bytes()
+                    .into_iter()
+                    .skip_while(|b| *b == 0)
+                    .collect();
+
+                let bytes = BoundedBytes::from(bytes);
+
+                if negative {
+                    PlutusData::BigInt(BigInt::BigNInt(bytes))
+                } else {
+                    PlutusData::BigInt(BigInt::BigUInt(bytes))
+                }
+            }
+        }
     }
 }
 
